@@ -26,6 +26,8 @@ def run(ctx, repo):
     RO.r_construct_cache(ctx, repo)
     RX.r_newobj_form(ctx, repo)
     RX.r_dict_state_direct(ctx, repo)
+    RX.r_setstate_unconditional(ctx, repo)
+    RX.r_alias_key_fresh(ctx, repo)
 
 if __name__ == '__main__':
     sys.exit(report.main('C17', 'other', run))
